@@ -106,3 +106,188 @@ def install_batch_tasks():
     w = wrap_batch_tasks(ut.batch_tasks)
     ut.batch_tasks = w
     mh.batch_tasks = w
+
+
+# --------------------------------------------------------------------------
+# C15: RVData contracts (icontract, recording conditions that return True)
+# --------------------------------------------------------------------------
+
+def _nan_eq(a, b):
+    a = np.asarray(a, dtype=float)
+    b = np.asarray(b, dtype=float)
+    return a.shape == b.shape and bool(np.all((a == b) | (np.isnan(a) & np.isnan(b))))
+
+
+def rvdata_expected(t, rv, rv_err, t_ref, clean):
+    """Independent statement of what an RVData must hold, from the inputs."""
+    import astropy.units as u
+    from astropy.time import Time
+    if isinstance(t, Time):
+        tt = np.atleast_1d(np.array(t.tcb.mjd, dtype=float))
+    else:
+        tt = np.atleast_1d(np.array(t, dtype=float))
+    rvq = u.Quantity(np.atleast_1d(rv))
+    erq = u.Quantity(np.atleast_1d(rv_err))
+    rvv = np.array(rvq.value, dtype=float)
+    erv = np.array(erq.value, dtype=float)
+    has_cov = erv.ndim == 2
+    keep = np.ones(len(rvv), dtype=bool)
+    if clean:
+        keep &= np.isfinite(tt) & np.isfinite(rvv)
+        if has_cov:
+            # an observation is finite iff its own time, velocity and variance are finite and so
+            # are its covariances with every other such observation
+            fc = np.isfinite(erv)
+            own = keep & np.diag(fc)
+            keep = own & np.array([bool(np.all(fc[i, own]) and np.all(fc[own, i])) for i in range(len(rvv))])
+        else:
+            keep &= np.isfinite(erv)
+    idx = np.where(keep)[0]
+    return dict(t=tt, rv=rvv, err=erv, keep_idx=idx, has_cov=has_cov,
+                rv_unit=rvq.unit, err_unit=erq.unit)
+
+
+def check_rvdata_against(d, exp, t_ref, what="init"):
+    """Compare a constructed RVData `d` with the expectation. Returns list of (key, msg)."""
+    from astropy.time import Time
+    bad = []
+    idx = exp["keep_idx"]
+    n = len(idx)
+    st = np.asarray(d._t_bmjd, dtype=float)
+    srv = np.asarray(d.rv.value, dtype=float)
+    ser = np.asarray(d.rv_err.value, dtype=float)
+    if not (len(st) == len(srv) == ser.shape[0]) or (ser.ndim == 2 and ser.shape[0] != ser.shape[1]):
+        return [("parallel-arrays-differ", "lengths t=%d rv=%d err=%s" % (len(st), len(srv), ser.shape))]
+    if len(srv) != n:
+        return [("wrong-count", "%s: holds %d observations, expected %d" % (what, len(srv), n))]
+    if d.rv.unit != exp["rv_unit"]:
+        bad.append(("unit-changed", "rv unit %s != %s" % (d.rv.unit, exp["rv_unit"])))
+    if d.rv_err.unit != exp["err_unit"]:
+        bad.append(("unit-changed", "rv_err unit %s != %s" % (d.rv_err.unit, exp["err_unit"])))
+    # time order (finite times must be non-decreasing; NaN times sort last)
+    fin = np.isfinite(st)
+    if np.any(np.diff(st[fin]) < 0) or (np.any(~fin) and np.any(fin[np.argmax(~fin):])):
+        bad.append(("not-time-sorted", "stored times not non-decreasing"))
+    # pairing: rv values are unique tags (NaN allowed once when clean=False) -> permutation
+    in_rv = exp["rv"][idx]
+    order_in = np.argsort(in_rv, kind="stable")
+    order_st = np.argsort(srv, kind="stable")
+    if not _nan_eq(in_rv[order_in], srv[order_st]):
+        bad.append(("observations-altered", "%s: stored velocities are not the input velocities" % what))
+        return bad
+    perm = np.empty(n, dtype=int)      # stored position k holds input idx[perm[k]]
+    perm[order_st] = order_in
+    src = idx[perm]
+    if not _nan_eq(exp["t"][src], st):
+        bad.append(("pairing-broken", "%s: a velocity is stored with another observation's time" % what))
+    if exp["has_cov"]:
+        if ser.ndim != 2 or not _nan_eq(exp["err"][np.ix_(src, src)], ser):
+            bad.append(("pairing-broken", "%s: covariance rows/columns do not follow their observations" % what))
+    else:
+        if ser.ndim != 1 or not _nan_eq(exp["err"][src], ser):
+            bad.append(("pairing-broken", "%s: a velocity is stored with another observation's uncertainty" % what))
+    # ivar
+    try:
+        iv = d.ivar
+        if exp["has_cov"]:
+            if np.all(np.isfinite(ser)) and n > 0:
+                prod = np.asarray(iv.value) @ ser
+                c = np.linalg.cond(ser)
+                if not np.allclose(prod, np.eye(n), atol=1e-10 * max(c, 1.0) * n, rtol=0):
+                    bad.append(("ivar-wrong", "ivar @ cov != I (max dev %.3g, cond %.3g)"
+                                % (np.abs(prod - np.eye(n)).max(), c)))
+        else:
+            with np.errstate(all="ignore"):
+                want = 1.0 / ser ** 2
+            got = np.asarray(iv.to_value(1 / d.rv_err.unit ** 2), dtype=float)
+            ok = np.isclose(got, want, rtol=1e-13, atol=0, equal_nan=True) | (np.isinf(want) & np.isinf(got))
+            if not np.all(ok):
+                bad.append(("ivar-wrong", "ivar != 1/err^2"))
+    except Exception as e:  # noqa
+        bad.append(("ivar-raises", "ivar raised %r" % (e,)))
+    # reference epoch
+    if t_ref is False:
+        if d.t_ref is not None or d._t_ref_bmjd != 0.0:
+            bad.append(("t_ref-wrong", "t_ref=False but t_ref=%r" % (d.t_ref,)))
+    elif t_ref is None:
+        if n > 0 and np.any(fin):
+            if not (isinstance(d.t_ref, Time) and d._t_ref_bmjd == np.min(st[fin])
+                    and float(d.t_ref.tcb.mjd) == np.min(st[fin])):
+                bad.append(("t_ref-wrong", "default t_ref %r is not the earliest time %r"
+                            % (d._t_ref_bmjd, np.min(st[fin]))))
+    else:
+        if not (isinstance(d.t_ref, Time) and float(d.t_ref.tcb.mjd) == float(t_ref.tcb.mjd)
+                and d._t_ref_bmjd == float(t_ref.tcb.mjd)):
+            bad.append(("t_ref-wrong", "explicit t_ref not kept"))
+    return bad
+
+
+def _rv_init_post(self, t, rv, rv_err, t_ref, clean):
+    hit("RVData.__init__")
+    try:
+        exp = rvdata_expected(t, rv, rv_err, t_ref, clean)
+        for key, msg in check_rvdata_against(self, exp, t_ref, "init"):
+            fire("C15", key, msg, {"op": "init", "n_in": int(len(exp["rv"])), "clean": bool(clean)})
+    except Exception as e:  # monitor's own failure must not hit the code under test
+        fire("C15-monitor-error", "monitor-error", repr(e))
+    return True
+
+
+def _rv_snapshot(self):
+    return dict(t=np.array(self._t_bmjd, dtype=float, copy=True),
+                rv=np.array(self.rv.value, dtype=float, copy=True),
+                err=np.array(self.rv_err.value, dtype=float, copy=True),
+                rv_unit=self.rv.unit, err_unit=self.rv_err.unit,
+                t_ref=self.t_ref, t_ref_bmjd=self._t_ref_bmjd, has_cov=self._has_cov)
+
+
+def _rv_copy_post(self, result, OLD):
+    hit("RVData.copy")
+    try:
+        o = OLD.snap
+        if not np.all(np.isfinite(o["rv"])) or not np.all(np.isfinite(o["err"])) or not np.all(np.isfinite(o["t"])):
+            hit("RVData.copy.skipped_nonfinite")
+            return True
+        exp = dict(t=o["t"], rv=o["rv"], err=o["err"], keep_idx=np.arange(len(o["rv"])),
+                   has_cov=o["has_cov"], rv_unit=o["rv_unit"], err_unit=o["err_unit"])
+        tr = o["t_ref"] if o["t_ref"] is not None else False
+        for key, msg in check_rvdata_against(result, exp, tr, "copy"):
+            if key == "t_ref-wrong":
+                key = "copy-drops-t_ref"
+                msg = ("copy(): reference epoch %r became %r" % (o["t_ref_bmjd"], result._t_ref_bmjd))
+            fire("C15", key, msg, {"op": "copy", "n": int(len(o["rv"])), "t_ref_was": str(o["t_ref"])})
+        if result is self or (len(o["rv"]) and np.shares_memory(result.rv.value, self.rv.value)):
+            fire("C15", "copy-aliases", "copy shares memory with the original", {"op": "copy"})
+    except Exception as e:
+        fire("C15-monitor-error", "monitor-error", repr(e))
+    return True
+
+
+def _rv_getitem_post(self, slc, result, OLD):
+    hit("RVData.__getitem__")
+    try:
+        o = OLD.snap
+        if not (np.all(np.isfinite(o["rv"])) and np.all(np.isfinite(o["err"])) and np.all(np.isfinite(o["t"]))):
+            return True
+        sel = np.arange(len(o["rv"]))[slc]
+        sel = np.atleast_1d(sel)
+        exp = dict(t=o["t"], rv=o["rv"], err=o["err"], keep_idx=sel, has_cov=o["has_cov"],
+                   rv_unit=o["rv_unit"], err_unit=o["err_unit"])
+        for key, msg in check_rvdata_against(result, exp, None, "getitem"):
+            fire("C15", "slice-" + key, msg, {"op": "getitem", "slc": repr(slc)[:80], "n": int(len(o["rv"]))})
+    except Exception as e:
+        fire("C15-monitor-error", "monitor-error", repr(e))
+    return True
+
+
+def install_rvdata():
+    import icontract
+    from thejoker.data import RVData
+    if getattr(RVData, "__tjverif__", False):
+        return
+    RVData.__init__ = icontract.ensure(_rv_init_post, error=AssertionError)(RVData.__init__)
+    RVData.__copy__ = icontract.snapshot(_rv_snapshot, name="snap")(
+        icontract.ensure(_rv_copy_post, error=AssertionError)(RVData.__copy__))
+    RVData.__getitem__ = icontract.snapshot(_rv_snapshot, name="snap")(
+        icontract.ensure(_rv_getitem_post, error=AssertionError)(RVData.__getitem__))
+    RVData.__tjverif__ = True
